@@ -356,6 +356,9 @@ def run(ctx):
                       'unput(): the flag is deliberately not recomputed by yyunput (documented: yy_set_bol is the user\'s tool)']
     rep.assumptions += ['clang -O0 IR of the instantiated skeleton is a faithful rendering of the generated source',
                         'bison action code is reached only through the action switch of yyparse']
+    import tbl
+    tbl.rule_language(ctx, 'C06.R4', probes=('anchors', 'sc'), what="'^' rules only at beginning of line, '$' and r/s competing with the length of r followed by s")
+    rep.floor('C06.R4', 18, 'language probes x table representations')
     return rep.finish('other',
         "Generator side: the IR of parse.c is partitioned into grammar actions (blocks dominated by a case label of bison's action switch); the action that "
         "sets bol_needed must distribute into scbol[] only and every other into scset[] only, and ntod must read scbol[] under an even start-state number.  "
